@@ -370,6 +370,119 @@ pub fn run(tier: Tier) -> i32 {
         }
     }
     rep.cov("spelling_cases", json!(spellings));
+    // the writer's buffer: in the tool it holds 2^20 packets, so only streams beyond a million selected packets make it
+    // flush in mid-run. The real `BufferedWriter` is driven here with buffer sizes 1..=5: every sequence of up to 5
+    // batches of 1..=3 packets, through `push_cdp_vec` and `push_cdp_arr` (the entry point the writer thread uses): the file holds
+    // the pushed packets, each once, in order
+    let mut writer_seqs = 0u64;
+    {
+        use alice_protocol_reader::cdp_wrapper::cdp_array::CdpArray;
+        use alice_protocol_reader::cdp_wrapper::cdp_vec::CdpVec;
+        use alice_protocol_reader::prelude::*;
+        use fastpasta::config::prelude::MockConfig;
+        use fastpasta::write::writer::{BufferedWriter, Writer};
+        let scratch = Scratch::new("c08w");
+        let seqs: Vec<Vec<u8>> = gen::sequences(&[1u8, 2, 3], 5).into_iter().filter(|q| !q.is_empty()).collect();
+        'w: for max in 1usize..=5 {
+            // (the separate `push_rdhs` / `push_payload` entry points are not used by the tool: a flush between the two
+            // halves of a packet is a misuse of the API, not a behaviour of the tool)
+            for via in 0..2u8 {
+                for (qi, q) in seqs.iter().enumerate() {
+                    let path = scratch.join(&format!("w{max}_{via}_{}.raw", qi % 8));
+                    let mut cfg = MockConfig::new();
+                    cfg.output = Some(path.clone());
+                    let mut want: Vec<u8> = Vec::new();
+                    let r = crate::val::guarded(|| {
+                        let mut w = BufferedWriter::<RdhCru>::new(&cfg, max);
+                        let mut no = 0u32;
+                        for &k in q {
+                            let mut pk: Vec<(RdhCru, Vec<u8>)> = Vec::new();
+                            for _ in 0..k {
+                                let p = gen::recognisable_framed((no % 3) as u8, gen::fee_of_link((no % 3) as u8), 16 + 16 * (no as usize % 3), 88_000 + no as u64);
+                                let bytes = p.bytes();
+                                want.extend_from_slice(&bytes);
+                                pk.push((RdhCru::load(&mut &bytes[..64]).unwrap(), bytes[64..].to_vec()));
+                                no += 1;
+                            }
+                            match via {
+                                0 => {
+                                    let mut v = CdpVec::with_capacity(pk.len());
+                                    for (r, p) in pk {
+                                        v.push(r, p, 0);
+                                    }
+                                    w.push_cdp_vec(v);
+                                }
+                                1 => {
+                                    let mut a = CdpArray::<RdhCru, 3>::new();
+                                    for (r, p) in pk {
+                                        a.push(r, p, 0);
+                                    }
+                                    w.push_cdp_arr(a);
+                                }
+                                _ => {
+                                    for (r, p) in pk {
+                                        w.push_rdhs(vec![r]);
+                                        w.push_payload(p);
+                                    }
+                                }
+                            }
+                        }
+                        drop(w);
+                    });
+                    writer_seqs += 1;
+                    let got = std::fs::read(&path).unwrap_or_default();
+                    let problem = match r {
+                        Err(p) => Some(format!("panic: {p}")),
+                        Ok(()) if got != want => Some(format!("the file holds {} bytes, the pushed packets make {} bytes (first difference at {})", got.len(), want.len(), first_diff(&got, &want))),
+                        _ => None,
+                    };
+                    if let Some(d) = problem {
+                        rep.violation(Violation { signature: format!("write:buffered-writer:{}", if d.starts_with("panic") { "panic" } else { "file-differs-from-pushed-packets" }), description: format!("{d} [buffer of {max} packets, batches {:?}, via {}]", q, ["push_cdp_vec", "push_cdp_arr", "push_rdhs + push_payload"][via as usize]), replay: json!({"kind": "writer", "max": max, "via": via, "batches": q}) });
+                        break 'w;
+                    }
+                }
+            }
+        }
+    }
+    rep.cov("buffered_writer_sequences", json!(writer_seqs));
+    // thorough: the real thing once - 1 200 000 header-only packets (77 MB), 1 050 000 of them selected, so the writer's
+    // 2^20-packet buffer is flushed in mid-run; file and stdin source
+    if tier.is_thorough() {
+        let n = 1_200_000usize;
+        let mut bytes: Vec<u8> = Vec::with_capacity(n * 64);
+        let mut want: Vec<u8> = Vec::with_capacity(n * 64);
+        let proto = gen::recognisable_framed(0, gen::fee_of_link(0), 0, 70_000);
+        for i in 0..n {
+            let mut r = proto.rdh.clone();
+            r.link_id = if i % 8 == 7 { 1 } else { 0 };
+            r.orbit = i as u32; // a sequence number: every packet is distinguishable
+            r.memory_size = 64;
+            r.offset_next = 64;
+            let e = r.encode();
+            bytes.extend_from_slice(&e);
+            if r.link_id == 0 {
+                want.extend_from_slice(&e);
+            }
+        }
+        for stdin in [false, true] {
+            let scratch = Scratch::new("c08big");
+            let mut a: Vec<String> = Vec::new();
+            if !stdin {
+                a.push(scratch.file("in.raw", &bytes).display().to_string());
+            }
+            a.extend(["--filter-link".to_string(), "0".to_string(), "-o".to_string(), "out.raw".to_string()]);
+            let mut run = Run::new(&a).cwd(&scratch.path).timeout_s(120);
+            if stdin {
+                run = run.stdin(&bytes);
+            }
+            let r = run.run();
+            let got = std::fs::read(scratch.join("out.raw")).unwrap_or_default();
+            if r.crashed() || r.status != Some(0) || got != want {
+                rep.violation(Violation { signature: "write:bytes:beyond-the-writer-buffer".into(), description: format!("1 050 000 selected packets (stdin = {stdin}): exit {:?} signal {:?}, output {} bytes, expected {} bytes, first difference at byte {}", r.status, r.signal, got.len(), want.len(), first_diff(&got, &want)), replay: json!({"kind": "big", "stdin": stdin}) });
+            }
+        }
+        rep.cov("beyond_writer_buffer_runs", json!(2));
+    }
     // partition: for every pattern stream, the link-filter outputs over all link values add up to the input
     let mut partitions = 0u64;
     let pats = gen::sequences(&[0, 1, 2], if tier.is_thorough() { 5 } else { 4 });
